@@ -28,16 +28,6 @@ class SMA(Indicator):
         return f"{self._name}_{self.period}"
 
     def _calculate_reading(self, index: int) -> float | dict | None:
-        if self.prev_exists():
-            return (
-                self.prev_reading()
-                - (
-                    self.reading(self.input_value, index - self.period)
-                    - self.reading(self.input_value)
-                )
-                / self.period
-            )
-
         if self.reading_period(self.period, self.input_value):
             return self.candles_sum(self.period, self.input_value) / self.period
 
